@@ -18,7 +18,7 @@ for name in sorted(os.listdir(os.path.join(ROOT, "seeded"))):
             break
     summ = (m.get("summary") or "").replace("\n", " ").replace("|", "/")
     needs = (m.get("needs") or "").replace("\n", " ").replace("|", "/")
-    rows.append((name, m.get("property", name.split("-")[0]), summ[:150], needs[:170], ", ".join(caught) or "—", ", ".join(missed), first[:110].replace("|", "/")))
+    rows.append((name, m.get("property", name.split("-")[0]), summ[:120], needs[:120], ", ".join(caught) or "—", ", ".join(missed), first[:90].replace("|", "/")))
 print("| seeded change | breaks | what was changed | needs to manifest | caught by (quick tier) | first report |")
 print("|---|---|---|---|---|---|")
 for r in rows:
